@@ -65,7 +65,10 @@ def gen_case(rng: random.Random, tier: str) -> dict:
     ops = []
     for _ in range(rng.randint(3, 8)):
         r = rng.random()
-        if r < 0.03:
+        if r < 0.015:
+            # two graphs whose only node carries the SAME node name but a different input wiring, one runner after the other
+            ops.append({"op": "twins", "first": rng.choice(["a", "b"]), "nested": rng.random() < 0.4, "sync": rng.random() < 0.5, "runner": rng.randrange(2), "x": rng.randint(0, 2), "cfg": gen.gen_async_cfg(rng)})
+        elif r < 0.03:
             ops.append({"op": "sharedresp", "runner": rng.randrange(3), "x": rng.randint(0, 2), "cfg": gen.gen_async_cfg(rng)})
         elif r < 0.06:
             ops.append({"op": "siblings", "depth": rng.choice([1, 1, 2, 2, "2map"]), "provide": rng.choice([None, None, "A_obj", "other"]), "sync": rng.random() < 0.5, "runner": rng.randrange(2), "x": rng.randint(0, 2), "cfg": gen.gen_async_cfg(rng), "outer_bind": rng.random() < 0.3})
@@ -100,6 +103,11 @@ def gen_case(rng: random.Random, tier: str) -> dict:
             for nd, _d, _p in iter_nodes(pr):
                 if nd["kind"] == "fn" and nd.get("beh") in ("snapshot", "snapshot_nested") and rng.random() < 0.7:
                     nd["cache"] = True
+    for pr in progs:
+        # throw-away siblings derived from the very graph objects of the history (graph.bind(cfg=<other>), unbind ...): a parameter sweep
+        # over one base graph never changes what the base graph - or a graph derived from it earlier or later - has bound
+        if rng.random() < 0.35:
+            pr["siblings"] = True
     return {"progs": progs, "ops": ops, "cache": cache}
 
 
@@ -111,6 +119,25 @@ def _mapnode_spec(clone, ren: bool, mo: str) -> dict:
                                      "renames": [{"inputs": {"cfgi": "cfg_outer_name"}}] if ren else [],
                                      "graph": {"name": "mp", "bind": {"cfgi": {"inner": [7]}}, "nodes": [
                                          {"kind": "fn", "name": "mf", "params": [{"name": "x"}, {"name": "y"}, {"name": "cfgi"}], "outs": ["mo_o"]}], "order": [0]}}], "order": [0]}
+
+
+def _twin_spec(which: str, nested: bool) -> dict:
+    """Graph 'a': node tw(ta, tb); graph 'b': a node of the SAME NAME over the same function with its two inputs wired crosswise.
+    nested: the 'b' node sits in a nested graph beside an outer 'a' node (one run executes both)."""
+    a = {"kind": "fn", "name": "tw", "fid": "twf", "params": [{"name": "ta"}, {"name": "tb"}], "outs": ["two_a"]}
+    b = {"kind": "fn", "name": "tw", "fid": "twf", "params": [{"name": "ta"}, {"name": "tb"}], "outs": ["two_b"], "rename_inputs": {"ta": "tb", "tb": "ta"}}
+    if nested:
+        return {"name": "tn", "nodes": [a, {"kind": "graph", "name": "TWN", "graph": {"name": "TWN", "nodes": [b], "order": [0]}}], "order": [0, 1] if which == "a" else [1, 0]}
+    return {"name": "tw_" + which, "nodes": [a if which == "a" else b], "order": [0]}
+
+
+def _twin_alone(which: str, nested: bool, flav: str, inp: dict) -> list:
+    rt = Runtime(schedule={"mode": "delay", "seed": 0, "choices": [0]})
+    with patched(rt):
+        graph, _ = build(_twin_spec(which, nested), rt, flav)
+        if flav == "sync":
+            return _summ(call_sync(rt, lambda: make_runner("sync", rt).run(graph, inp)))
+        return _summ(call_async(rt, [lambda: make_runner("async", rt).run(graph, inp)])[0])
 
 
 def _mapdef_spec(clone) -> dict:
@@ -155,6 +182,13 @@ class _Pool:
                         graph, comp = build(_mapnode_spec(clone, ren, mo), rt, flav)
                         self.comps.append(comp)
                         self.mapnode[(clone_key, flav, ren, mo)] = (graph, comp.nodes["mp"].graph.inputs.bound["cfgi"])
+        self.twins: dict[tuple, object] = {}
+        for flav in ("sync", "async"):
+            for which in ("a", "b"):
+                for nested in (False, True):
+                    graph, comp = build(_twin_spec(which, nested), rt, flav)
+                    self.comps.append(comp)
+                    self.twins[(flav, which, nested)] = graph
         self.mapdef: dict[tuple, object] = {}
         for clone in (True, False):
             for flav in ("sync", "async"):
@@ -322,6 +356,23 @@ def run_case(doc: dict) -> dict:
                     if sorted(obj) != ["sra", "srb"]:
                         viol.append((f"{tag}:handler_owned_dict_modified", {"node": nname, "keys_now": sorted(map(str, obj))}))
                         break
+            elif op["op"] == "twins":
+                flav = "sync" if op["sync"] else "async"
+                nested = bool(op.get("nested"))
+                seq = ["a", "b"] if op["first"] == "a" else ["b", "a"]
+                for which in (seq[:1] if nested else seq):
+                    g = pool.twins[(flav, which, nested)]
+                    inp = {"ta": op["x"], "tb": op["x"] + 10}
+                    if flav == "sync":
+                        rt.schedule = {}
+                        out = call_sync(rt, lambda: pool.sync_runners[op["runner"]].run(g, inp), call_id=f"op{oi}{which}")
+                    else:
+                        rt.schedule = op["cfg"]["schedule"]
+                        rt.decisions = []
+                        out = call_async(rt, [lambda: pool.async_runners[op["runner"]].run(g, inp)], shuffle_seed=op["cfg"].get("shuffle"), call_ids=[f"op{oi}{which}"])[0]
+                    res["runs"] += 2
+                    _compare(f"{tag}[{which}]", _summ(out), _twin_alone(which, nested, flav, dict(inp)), viol)
+                res["stats"]["same_node_name_different_wiring_ops"] = res["stats"].get("same_node_name_different_wiring_ops", 0) + 1
             elif op["op"] == "siblings":
                 flav = "sync" if op["sync"] else "async"
                 ob = bool(op.get("outer_bind"))
